@@ -95,6 +95,9 @@ def make_scenario(spec, seed, idx):
     for comp in (False, True):
         runs.append({'via': 'api', 'cwd': r.choice((main_dir, '/w', '/w/elsewhere')), 'main_abs': r.random() < 0.5, 'compress': comp})
     runs.append({'via': 'cli', 'cwd': r.choice((main_dir, '/w/elsewhere')), 'main_abs': r.random() < 0.5, 'compress': r.random() < 0.5})
+    if not tree['includes'] and f == tree['main'] and 'include' not in tree['files'][f]:
+        # a single-file program can also be handed over as text: the error must then name '<string>' and the same line
+        runs.append({'via': 'text', 'cwd': main_dir, 'main_abs': True, 'compress': r.random() < 0.5})
     scen = {'tree': tree, 'planted': {'file': f, 'line': ln, 'text': planted_text, 'cls': cls, 'shape': text, 'depth': depths.get(f, 0), 'where': where},
             'runs': runs, 'fs_faults': []}
     if k == 'env':
@@ -124,14 +127,15 @@ def run_scenario(scen, keep_events=False):
         fs = asmsim.make_fs(files, list(tree['dirs']) + [cwd, '/w/out'], cwd=cwd, faults=copy.deepcopy(scen.get('fs_faults') or []))
         comp = run['compress']
         cflag = 'c' if comp else 'nc'
-        if run['via'] == 'api':
-            out = asmsim.run_api(fs, {'target': main, 'compress': comp, 'include_dirs': list(tree['inc_dirs'])}, log)
+        if run['via'] in ('api', 'text'):
+            target = main if run['via'] == 'api' else tree['files'][tree['main']]
+            out = asmsim.run_api(fs, {'target': target, 'compress': comp, 'include_dirs': list(tree['inc_dirs'])}, log)
             refused = not out['ok']
             is_asm = out.get('is_asm_error', False)
             exc, where_pass = out.get('exc'), out.get('pass')
             rep_file = out.get('file')
             rep_line = out.get('line')
-            if rep_file is not None:
+            if rep_file is not None and run['via'] == 'api':
                 rep_file = posixpath.normpath(posixpath.join(cwd, rep_file))
             stderr = ''
         else:
@@ -173,10 +177,11 @@ def run_scenario(scen, keep_events=False):
                         % (pl['text'], cls, pl['file'], pl['line'], comp, run['via'], exc, where_pass))
             sig.append('internal:' + str(exc))
             continue
-        if rep_file != pl['file'] or rep_line != pl['line']:
+        want_file = '<string>' if run['via'] == 'text' else pl['file']
+        if rep_file != want_file or rep_line != pl['line']:
             res.violate('wrong-location', '%s|%s|%s' % (cls, 'main' if pl['depth'] == 0 else 'included', cflag),
                         'faulty line %r planted at %s:%d but the AssemblerError names %s:%s (compress=%s via %s cwd=%s)'
-                        % (pl['text'], pl['file'], pl['line'], rep_file, rep_line, comp, run['via'], cwd))
+                        % (pl['text'], want_file, pl['line'], rep_file, rep_line, comp, run['via'], cwd))
             sig.append('wrongloc')
             continue
         if run['via'] == 'cli':
